@@ -88,6 +88,25 @@ CHECKS = {
 NOT_YET = {
 }
 
+# what the checks gained after the table above was written (appended to the level text)
+ADDENDA = {
+    "C01": " Raw probe requests are built WITHOUT the router's configuration (the router normalises them itself); the pool also holds a sibling dynamic path that leaves a purely literal tree node.",
+    "C02": " A second, small universe (MC_Router_c02paths: rules sharing a static path and bucket, a rule under two method buckets, a dynamic host) is explored with VIEW ViewKinds = state + the sequence of operation kinds, so that every KIND of path to a state is replayed (hidden counters and flags of the implementation depend on the path, not on the abstract state).",
+    "C04": " Conservation is also judged under the byte-level sweeps (every single cut, one byte at a time, empty chunks interleaved), and the gate of the chain (lists that build nothing, empty lists, unsupported encodings, with and without a content encoding) through the inert cases of Pipeline.tla.",
+    "C05": " PoolF adds stop / reset flags on rules that may be sampled out; ids are all-digit strings whose string order is not their numeric order.",
+    "C07": " Captures shaped like the placeholder of their own marker are part of the capture classes, and the rule declares its marker variables so that targets and filter values are really substituted.",
+    "C08": " Further universes: non-ASCII text as a literal and inside a group (character count differs from byte count), sibling subtrees accepting the same string, an expression whose program takes several MiB, and two path-exhaustive ones (no VIEW on three case-variant patterns; ViewKinds on three patterns under one node with 5 operations) because the implementation's hidden state depends on the path to an abstract state. The model's regex semantics is checked against the regex crate itself at every run.",
+    "C09": " A catch-all rule whose target takes path and query from a marker is matched against every URL (the forwarded parameters must follow with the separator that target needs), the Location is compared after re-normalisation, and the universe holds an apostrophe (punctuation no encode set touches).",
+    "C10": " Each request is also sent with the header repeated (a value the pattern cannot accept after / before the accepted one); values repeat what the replace transformers look for; a marker expression with a space is used in a header pattern.",
+    "C12": " Same additional tree universes as C08 where they contain cache operations (non-ASCII, multi-MiB program, deeper histories under ViewKinds); the router history pool holds a renamed-marker version of a rule (captures after an update of a warmed router).",
+    "C14": " Content-coding names are also sent in other spellings (GZIP, Br); an empty output is not a complete stream; lists that build nothing must leave every byte untouched whatever the encoding.",
+    "C15": " Selectors are .x or N.x (type + class, case-insensitive on the element name); documents hold '>' inside quoted attributes, upper-case elements, comments inside buffered elements (comments belong to the domain), depth-1 paths; the selectors of later filters see the document as the earlier filters left it.",
+    "C16": " Lexeme documents and a random family of VALID multi-byte inputs contain characters whose UTF-8 continuation bytes are 0x85 / 0xA0, upper-case raw-text and table elements.",
+    "C17": " Raw requests are built without the router's configuration, and one configuration rewrites no URL at all (only host / header case).",
+    "C18": " The model also has api_get_rule_api_version and trusted_proxies_add_proxy (parsable or not), filter objects with and without an HTML stage, a payload the filter answers with fewer bytes than it was given; answers remember their payload so that they are distinct states. The driver runs the sequences in several processes (the allocator audit is per process).",
+    "C19": " UnitTrace.tla specifies the attribution of effects to units (add / override per target, squash) behind the applied / seen unit ids and is bound to the real UnitTrace and to FilterHeaderAction with unit ids. The chain universe has two project hosts (a host-less Location is joined to the URL of the hop that answered it); the impact of a re-edited draft (another version of the changed rule under the same action) is compared project vs standalone; the rules an explanation reports as applied are compared with those the live pipeline applies.",
+}
+
 ALL = ["C%02d" % i for i in range(1, 20)]
 
 
@@ -104,7 +123,7 @@ def main():
             "evidence_file": "/verif/evidence/%s.json" % pid,
             "replay_cmd_template": "./check %s --replay {path}" % pid,
             "engine": "tlc",
-            "level_claimed": {"category": c.get("category", "model_checking"), "text": c["text"], "design_ref": c["ref"]},
+            "level_claimed": {"category": c.get("category", "model_checking"), "text": c["text"] + ADDENDA.get(pid, ""), "design_ref": c["ref"]},
             "level_note": c["note"],
             "technique": c.get("technique", TECH),
         })
